@@ -60,8 +60,11 @@ def prox_maker(factory, field='real', g=False, sigma='scalar', extra=None):
                 kw['upper'] = S(z3.Real('upper'))
             elif up == 'elem':
                 kw['upper'] = stored['upper'] = X.element('upper')
-            if lo == 'scalar' and up == 'scalar':
-                st.assume(kw['lower'] <= kw['upper'])
+            if lo is not None and up is not None:
+                # requires: the box is not empty (lower <= upper at every index)
+                lo_v = kw['lower'] if lo == 'scalar' else st.lower(content(kw['lower']))
+                up_v = kw['upper'] if up == 'scalar' else st.lower(content(kw['upper']))
+                st.assume(lo_v <= up_v)
         elif factory in ('proximal_linfty', 'proximal_convex_conj_linfty', 'proximal_const_func'):
             kw = {}
         cls = I.call(f, args, kw, fr)
